@@ -789,9 +789,9 @@ def check_call(ctx, g, op, vds, c, names_ok, inputs_ok, f10_bad, stats, f21_ok=T
                         "sent_variables": sent_vars, "server_receives": (r.get("sent") or {}).get("coerced")})
     # ---------- behavioural K1: model outcome vs captured request; model intended vs reference
     if not inputs_ok:
-        # scope of the model: input types whose fields mangle to distinct names (the real code renames colliding
-        # fields since /repo bec4417, the model does not represent that): K3 above is the whole check here
-        run.dist("k1_scope", "input-field-collision:K3-only")
+        # inputs_ok is schema validity only (distinct type names, distinct field names per input type): never false for
+        # a schema graphql-core built.  Colliding Python field names are inside the model (Convert.fpy = C06's fname)
+        run.dist("k1_scope", "invalid-schema:K3-only")
         return
     if isinstance(m_out, list) and m_out[0] == "sent":
         mv = sx_json(m_out[1])
